@@ -8,7 +8,9 @@ package main
 import (
 	"encoding/json"
 	"fmt"
+	"math"
 	"sort"
+	"strconv"
 	"strings"
 
 	"verifharness/internal/hx"
@@ -58,6 +60,74 @@ func (t *table) trail(text string, j *J) {
 		panic(fmt.Sprintf("harness bug: %q was generated as JSON with trailing bytes but is well-formed", text))
 	}
 	t.put(text, sexp.T("trail", j.sexp()))
+}
+
+// numTokens: the number tokens of a text the model will ask about (maximal runs of number
+// characters outside strings) with their float64 bits as strconv.ParseFloat gives them; "nr" for a
+// token outside the float64 range.  This is all the model is told about a JSON text: it parses the
+// raw bytes itself.
+func numTokens(text string, into map[string]sexp.Node, order *[]string) {
+	isNum := func(c byte) bool {
+		return (c >= '0' && c <= '9') || c == '-' || c == '+' || c == '.' || c == 'e' || c == 'E'
+	}
+	for i := 0; i < len(text); {
+		c := text[i]
+		switch {
+		case c == '"':
+			i++
+			for i < len(text) && text[i] != '"' {
+				if text[i] == '\\' {
+					i++
+				}
+				i++
+			}
+			i++
+		case isNum(c):
+			j := i
+			for j < len(text) && isNum(text[j]) {
+				j++
+			}
+			tok := text[i:j]
+			i = j
+			if _, ok := into[tok]; ok {
+				continue
+			}
+			f, err := strconv.ParseFloat(tok, 64)
+			if err != nil {
+				if ne, ok := err.(*strconv.NumError); !ok || ne.Err != strconv.ErrRange {
+					continue // not a number
+				}
+				into[tok] = sexp.L(sexp.Str(tok), sexp.Sym("nr"))
+			} else if math.IsInf(f, 0) {
+				into[tok] = sexp.L(sexp.Str(tok), sexp.Sym("nr"))
+			} else {
+				into[tok] = sexp.L(sexp.Str(tok), sexp.Uint64(math.Float64bits(f)))
+			}
+			*order = append(*order, tok)
+		default:
+			i++
+		}
+	}
+}
+
+func numsOf(subs []submission) []sexp.Node {
+	m := map[string]sexp.Node{}
+	var order []string
+	for _, s := range subs {
+		if s.HTTP != nil {
+			numTokens(s.HTTP.Body, m, &order)
+			for _, p := range s.HTTP.Params {
+				numTokens(p[1], m, &order)
+			}
+		} else if s.WS.Payload != nil {
+			numTokens(*s.WS.Payload, m, &order)
+		}
+	}
+	out := make([]sexp.Node, 0, len(order))
+	for _, k := range order {
+		out = append(out, m[k])
+	}
+	return out
 }
 
 func (t *table) sexp() sexp.Node {
@@ -589,6 +659,7 @@ func (w *world) run(cfg config, feat bool, o *opReq, t *table, subs []submission
 		sexp.T("op", sexp.Str(o.Query), optVars(o.Vars), sexp.Str(o.OpName), sexp.Bool(o.Sub)),
 		sexp.T("classes", cl...),
 		sexp.T("json", t.sexp()),
+		sexp.T("nums", numsOf(subs)...),
 		sexp.T("subs", items...))
 }
 
@@ -646,6 +717,26 @@ func main() {
 					return w.run(cfg, true, o, t, subs)
 				})
 			}
+			for k := 0; k < nRawKinds; k++ {
+				o, k, idx := o, k, h.Index()
+				h.Case(func(r *rng.R) sexp.Node {
+					t := &table{}
+					id := ids(idx)
+					subs := canonical(t, o, id)
+					for choice := 0; choice < 3; choice++ {
+						subs = append(subs, *rawSubOn(o, k, choice, id))
+					}
+					return w.run(cfg, true, o, t, subs)
+				})
+			}
+			for k := range rawVarTexts {
+				o, k, idx := o, k, h.Index()
+				h.Case(func(r *rng.R) sexp.Node {
+					t := &table{}
+					subs := append(canonical(t, o, ids(idx)), *rawGetSub(k, "variables"), *rawGetSub(k, "extensions"))
+					return w.run(cfg, true, o, t, subs)
+				})
+			}
 			n := len(malformedSubs(&table{}, o, rng.New(1), ids(0)))
 			for k := 0; k < n; k += 4 {
 				o, k, idx := o, k, h.Index()
@@ -694,6 +785,14 @@ func main() {
 					for j, nm := 0, r.Range(1, 3); j < nm; j++ {
 						subs = append(subs, rng.Pick(r, ms)())
 					}
+				}
+				if r.Chance(1, 3) {
+					for j, nr := 0, r.Range(1, 2); j < nr; j++ {
+						subs = append(subs, *rawSub(o, r.Intn(nRawKinds), r, id))
+					}
+				}
+				if !o.Sub && r.Chance(1, 8) {
+					subs = append(subs, *rawGetSub(r.Intn(len(rawVarTexts)), rng.Pick(r, []string{"variables", "variables", "extensions"})))
 				}
 				if r.Chance(1, 40) {
 					subs = append(subs, preInitSub(t, o, rng.Pick(r, []string{"gws", "tws"}), id))
